@@ -151,6 +151,34 @@ def cases(rng, tier):
         else:
             empty = not any(x for r in a for x in r) or not any(x for r in b for x in r)
             out.append(Case('hnf_union', line('hnf_union', a, b), nontrivial=False, tag='union-width-mismatch' + ('-empty' if empty else '')))
+    # determinants (lattice indices) beyond one and two machine words: diagonal and triangular pivots whose product passes 2^64 /
+    # 2^128 at different positions, plain and after a unimodular change of generators
+    for _ in range(40 if not th else 400):
+        n = rng.randrange(2, 5)
+        piv = [rng.choice([1, 2, 3, 6 * 2 ** 33, 2 ** 40, 2 ** 70 + 1, 2 ** 64 - 1, 2 ** 32, 10 ** 19, rng.getrandbits(70) | 1]) for _ in range(n)]
+        a = [[0] * n for _ in range(n)]
+        for i in range(n):
+            a[i][i] = piv[i] * rng.choice([1, -1])
+            for j in range(i): a[i][j] = rng.randrange(-5, 6) if rng.random() < 0.5 else 0
+        if rng.random() < 0.5: a = H.matmul(H.rand_unimodular(rng, n), a)
+        if rng.random() < 0.3: a = a + [[0] * n]
+        out.append(Case('hnf_determinant', line('hnf_determinant', a), oracle=H.o_det(a), always_oracle=True, tag='det-beyond-word'))
+    for a in ([[2 ** 40, 0], [0, 2 ** 40]], [[0, -(2 ** 70 + 1)], [3, 0]], [[3, 0], [0, 2 ** 70]], [[2 ** 70, 0], [0, 3]]):
+        out.append(Case('hnf_determinant', line('hnf_determinant', a), oracle=H.o_det(a), always_oracle=True, tag='det-beyond-word'))
+    # inputs that are ALMOST in normal form: square, lower triangular, positive diagonal, reduced next to the diagonal, but with
+    # unreduced entries two or more places left of it (a fast path "already normal" with an incomplete test returns them unchanged)
+    for _ in range(60 if not th else 600):
+        n = rng.randrange(3, 7)
+        a = [[0] * n for _ in range(n)]
+        for i in range(n):
+            a[i][i] = rng.choice([1, 1, 2, 3, 5, 12])
+        for i in range(n):
+            for j in range(i):
+                r_ = rng.randrange(0, a[j][j])
+                a[i][j] = r_ if j == i - 1 or rng.random() < 0.4 else r_ + a[j][j] * rng.choice([1, -1, 2, -3])
+        out.append(Case('hnf_new', line('hnf_new', a), oracle=H.o_new(a), always_oracle=True, nontrivial=True, tag='new-almost-normal'))
+        b = [list(r) for r in a]; rng.shuffle(b)
+        out.append(Case('hnf_new_pair', line('hnf_new_pair', a, b), oracle=H.o_pair(a, b, True), always_oracle=True, nontrivial=True, tag='pair-almost-normal'))
     for tag, a in H.structured_mats(rng, 300 if not th else 3000, 5, [2, 4, 16, 64]):
         n, m = len(a), len(a[0])
         if rng.random() < 0.5:
